@@ -93,11 +93,12 @@ EnumStep(e) ==
                  \cup (IF \A i \in DOMAIN e.rows : Len(e.rows[i].act) # Len(dvs) \/ Len(e.rows[i].x) # Len(dvs) \/ Canonical(dvs, e.rows[i].x, e.rows[i].act) THEN {} ELSE {"C07.inactive_not_canonical"})
                  \cup (IF \A i, j \in DOMAIN e.rows : i # j => ~(SameDisc(e.rows[i].x, e.rows[j].x) /\ e.rows[i].act = e.rows[j].act) THEN {} ELSE {"C04.duplicate_row"})
                  \cup (IF e.n_valid = -1 \/ e.n_valid = Len(e.rows) THEN {} ELSE {"C04.count_differs_from_rows"})
-                 \cup (IF e.n_valid = -1 \/ HasLinkedDv \/ e.n_valid = RefCount(G, adm) THEN {} ELSE {"C04.count_differs_from_reference_enumeration"})
+                 \* (a design space without any admissible architecture is the error case of C01, not an enumeration)
+                 \cup (IF e.n_valid = -1 \/ HasLinkedDv \/ adm = {} \/ e.n_valid = RefCount(G, adm) THEN {} ELSE {"C04.count_differs_from_reference_enumeration"})
                  \cup (IF \A i \in DOMAIN e.rows : \A o \in outs : (~HasCont /\ o[1] = e.rows[i].x) => o[2] = e.rows[i].act THEN {} ELSE {"C07.activeness_path_dependent"})
                  \* every corrected vector the decodes produced must be a listed row and vice versa (when the space was complete)
                  \cup (IF \A o \in outs : \E i \in DOMAIN e.rows : SameDisc(e.rows[i].x, o[1]) /\ e.rows[i].act = o[2] THEN {} ELSE {"C04.decoded_vector_not_listed"})
-                 \cup (IF ~e.space_complete \/ \A i \in DOMAIN e.rows : \E o \in outs : SameDisc(e.rows[i].x, o[1]) THEN {} ELSE {"C04.listed_row_never_decoded_to"})
+                 \cup (IF ~e.space_complete \/ adm = {} \/ \A i \in DOMAIN e.rows : \E o \in outs : SameDisc(e.rows[i].x, o[1]) THEN {} ELSE {"C04.listed_row_never_decoded_to"})
               ELSE {})
              \cup (IF e.n_declared = -1 \/ e.n_declared = Prod(DiscreteNs) THEN {} ELSE {"C04.declared_size_not_product"})
              \cup (IF e.ratio_ppm < 0 \/ e.n_valid <= 0 THEN {}
